@@ -1097,6 +1097,7 @@ func (n *network) startAcceptor(a gen.AcceptorOptions) (*acceptor, error) {
 		max_message_size: a.MaxMessageSize,
 		atom_mapping:     make(map[gen.Atom]gen.Atom),
 	}
+	acceptor.cookie = a.Cookie
 	if a.Cookie == "" {
 		acceptor.cookie = n.cookie
 	}
